@@ -517,3 +517,66 @@ func TestC18_R_TreeSpanningTwoFileSystems(t *testing.T) {
 		t.Fatalf("C18: tree spanning two file systems (hard-linked files with inode numbers %v): %v", inodes, err)
 	}
 }
+
+// Symbolic links on file systems that do not report the length of the target as the link's size: procfs reports 64 for
+// /proc/<pid>/fd/N and 0 for cwd / exe / root whatever the target is. The symlink node carries the whole target text.
+func TestC18_R_SymlinksOnProcfs(t *testing.T) {
+	if _, err := os.Lstat("/proc/self/fd"); err != nil {
+		t.Skip("no procfs here")
+	}
+	base := t.TempDir()
+	deep := base
+	for i := 0; i < 12; i++ {
+		deep = filepath.Join(deep, fmt.Sprintf("level-%02d-%s", i, strings.Repeat("d", 20)))
+	}
+	if err := os.MkdirAll(deep, 0o755); err != nil {
+		t.Fatal(err)
+	}
+	var links []string
+	for _, name := range []string{"f", strings.Repeat("n", 200)} {
+		f, err := os.Create(filepath.Join(deep, name))
+		if err != nil {
+			t.Fatal(err)
+		}
+		defer f.Close()
+		links = append(links, fmt.Sprintf("/proc/self/fd/%d", f.Fd()))
+	}
+	d, err := os.Open(deep)
+	if err != nil {
+		t.Fatal(err)
+	}
+	defer d.Close()
+	links = append(links, fmt.Sprintf("/proc/self/fd/%d", d.Fd()), "/proc/self/exe", "/proc/self/root", "/proc/self/cwd")
+	long := 0
+	for _, p := range links {
+		fi, err := os.Lstat(p)
+		if err != nil || fi.Mode()&os.ModeSymlink == 0 {
+			continue
+		}
+		target, err := os.Readlink(p)
+		if err != nil {
+			continue
+		}
+		st := NewStore()
+		l, _, err := builder.BuildUnixFSRecursive(p, st.LinkSystem())
+		if err != nil {
+			t.Fatalf("C18: import of the symbolic link %s (-> %d bytes of target, reported size %d): %v", p, len(target), fi.Size(), err)
+		}
+		bi, err := st.Decode(cidOf(l))
+		if err != nil {
+			t.Fatal(err)
+		}
+		if bi.UFS == nil || bi.UFS.GetType() != pb.Data_Symlink || len(bi.Links) != 0 {
+			t.Fatalf("C18: symbolic link %s imported as %v with %d links", p, bi.UFS, len(bi.Links))
+		}
+		if string(bi.UFS.Data) != target {
+			t.Fatalf("C18: symbolic link %s (file system reports size %d): the node carries %d bytes %q, the link target text has %d bytes %q", p, fi.Size(), len(bi.UFS.Data), bi.UFS.Data, len(target), target)
+		}
+		if int64(len(target)) > fi.Size() && len(target) > 129 {
+			long++
+		}
+	}
+	if long == 0 {
+		t.Log("no link with a long target and an under-reported size could be made here")
+	}
+}
